@@ -73,7 +73,7 @@ def size_sweep(tier):
 
 
 def cases_for(tier):
-    cs = streams.bound01(sizes=((64, 64),), contents=("grad", "screen")) + streams.sizes_lengths() + size_sweep(tier)
+    cs = streams.bound01(sizes=((64, 64),), contents=("grad", "screen")) + streams.sizes_lengths() + size_sweep(tier) + streams.big_tiles(tier == "thorough")
     if tier == "quick":
         cs += streams.gop_shapes(ns=(1, 2, 9, 18), ips=(-1, 0, 1, 3, 8))
     else:
